@@ -51,6 +51,15 @@ func (b behaviour) text() string {
 	}
 }
 
+// ptrErr: calling Error() on a nil *ptrErr dereferences nil
+type ptrErr struct{ msg string }
+
+func (e *ptrErr) Error() string { return e.msg }
+
+type badStringer struct{}
+
+func (badStringer) String() string { panic("String() panics") }
+
 type reasonError struct {
 	msg    string
 	reason kmip.Enum
@@ -341,13 +350,25 @@ func genBehaviour(r *rand.Rand, g *gen, op kmip.Enum) behaviour {
 	case 8, 9:
 		return behaviour{kind: "R", msg: "denied " + string(g.bytesv()), reason: kmip.Enum(1 + r.Intn(24))}
 	default:
-		switch r.Intn(4) {
+		switch r.Intn(10) {
 		case 0:
 			return behaviour{kind: "P", panicV: "boom " + fmt.Sprint(r.Intn(100))}
 		case 1:
 			return behaviour{kind: "P", panicV: errors.New("error value")}
 		case 2:
 			return behaviour{kind: "P", panicV: nil}
+		case 3:
+			return behaviour{kind: "P", panicV: (*ptrErr)(nil)} // an error whose Error() itself panics
+		case 4:
+			return behaviour{kind: "P", panicV: badStringer{}} // a Stringer whose String() panics
+		case 5:
+			return behaviour{kind: "P", panicV: reasonError{"panicking with a protocol error", 3}}
+		case 6:
+			return behaviour{kind: "P", panicV: fmt.Errorf("wrapped: %w", io.ErrUnexpectedEOF)}
+		case 7:
+			return behaviour{kind: "P", panicV: struct{ A, B int }{1, 2}}
+		case 8:
+			return behaviour{kind: "P", panicV: []string{"x", "y"}}
 		default:
 			return behaviour{kind: "P", panicV: 42}
 		}
